@@ -99,10 +99,10 @@ def harness_structure(sym):
     def where(i):
         prev = [j for j in range(i) if kinds[j] not in WHITESPACE]
         if not prev:
-            return "prev=none|rel=first|ws=" + ("yes" if i > 0 else "no")
+            return "prev=none|rel=first"
         j = prev[-1]
         rel = "same" if ind[i] == ind[j] else ("dedent" if ind[i] < ind[j] else "deeper")
-        return f"prev={_cls(kinds[j])}|rel={rel}|ws={'yes' if j < i - 1 else 'no'}"
+        return f"prev={_cls(kinds[j])}|rel={rel}"
 
     chain = []            # open openers among the non-whitespace lines so far: (indent, line index)
     for i in range(n):
@@ -155,8 +155,10 @@ def _structure_shards(tier):
         for rot in ROTATIONS[1:]:
             sh += [{"n": 3, "kinds": pre, "alphabet": rot} for pre in _prefixes(rot, 1)]
         return sh
-    sh += [{"n": 5, "kinds": pre, "alphabet": ROTATIONS[0]} for pre in _prefixes(ROTATIONS[0], 4)]
-    for rot in ROTATIONS[1:]:
+    # a 5 line text starting with a plain or whitespace line leaves the pass in its initial state after line 0:
+    # the 5 line bound is spent on texts that start with an opener
+    sh += [{"n": 5, "kinds": ["Block"] + pre, "alphabet": ROTATIONS[0]} for pre in _prefixes(ROTATIONS[0], 3)]
+    for rot in ROTATIONS:
         sh += [{"n": 4, "kinds": pre, "alphabet": rot} for pre in _prefixes(rot, 3)]
     sh += [{"n": 3, "kinds": pre, "alphabet": ALL_KINDS} for pre in _prefixes(ALL_KINDS, 2)]
     return sh
@@ -233,7 +235,7 @@ def harness_totality(sym):
     import openpectus.lang.model.ast as p
     from openpectus.lang.model.parser import PcodeParser, MethodLineIdGenerator
     prefix, suffix = FRAMES[sym.shard["frame"]]
-    s = sym.str("s", sym.shard["max_len"], ALPHABET)
+    s = sym.str("s", sym.shard["max_len"], sym.shard.get("alphabet", ALPHABET))
     line = prefix + s + suffix
     with sym.concrete():
         method = make_method(["Mark: first", "", "Mark: last"])
@@ -258,9 +260,14 @@ def harness_totality(sym):
         sym.check(False, f"no-tag-operator-value|frame={sym.shard['frame']}", f"line {sym.realize(line)!r}")
 
 
+SMALL_ALPHABET = ":#.=<A1٣ \t"
+
+
 def _totality_shards(tier):
-    n = 2 if tier == "quick" else 3
-    return [{"frame": i, "max_len": n} for i in range(len(FRAMES))]
+    sh = [{"frame": i, "max_len": 2} for i in range(len(FRAMES))]
+    if tier != "quick":
+        sh += [{"frame": i, "max_len": 3, "alphabet": SMALL_ALPHABET} for i in range(len(FRAMES))]
+    return sh
 
 
 OBLIGATIONS = [
@@ -272,7 +279,7 @@ OBLIGATIONS = [
         symbolic="per line: the indentation (unbounded non-negative integer) and the line kind (selector over Mark, Block, Watch, Alarm, "
                  "Macro, End block, blank, comment, UOD command)",
         bounds={"quick": "4 lines over {Mark, Block, blank}; 3 lines over each of three further kind triples (every kind used)",
-                "thorough": "5 lines over {Mark, Block, blank}; 4 lines over each of three further kind triples; 3 lines over all 9 kinds"},
+                "thorough": "5 lines over {Mark, Block, blank} starting with Block; 4 lines over {Mark, Block, blank} (quick set); 4 lines over each of three further kind triples; 3 lines over all 9 kinds"},
         assumptions=["every node comes from the real _parse_line on the concrete text of its kind; position.character / indent_error are then "
                      "overwritten by the symbolic indentation according to the lexer contract decided by obligation lexer_contract",
                      "reference parent relation written from the property statement; whitespace lines are not required to have any particular parent",
@@ -289,7 +296,7 @@ OBLIGATIONS = [
         encoded=["openpectus.lang.model.parser:PcodeParser._parse_line", "openpectus.lang.model.parser:PcodeParser._parse_tag_operator_value",
                  "openpectus.lang.model.parser:PcodeParser.parse_method"],
         symbolic="a string over the 17-character alphabet " + repr(ALPHABET) + " placed in one of 16 frames (prefix/suffix) on the middle line of a 3 line method",
-        bounds={"quick": "string length <= 2", "thorough": "string length <= 3"},
+        bounds={"quick": "string length <= 2 over the 17 characters", "thorough": "length <= 2 over the 17 characters and length <= 3 over " + repr(SMALL_ALPHABET)},
         assumptions=["strip/startswith/index/len before the regex run on the symbolic string; the line is concretised immediately before "
                      "Grammar.instruction_line_pattern.match and before re.search in _parse_tag_operator_value (C regex engine): "
                      "bounded exhaustive over the strings, each decided by a concrete run", "log statements removed at import"]),
